@@ -147,6 +147,7 @@ def build_driver():
     d = os.path.join(BUILD, "extract"); os.makedirs(d, exist_ok=True)
     # hash the *compiled* models (so a stale .vo can never be stamped as current) plus the driver sources
     srcs = glob.glob(os.path.join(V, "theories", "Model", "*.vo")) + glob.glob(os.path.join(V, "theories", "Gen", "*.vo")) + \
+           glob.glob(os.path.join(V, "theories", "Spec", "*.vo")) + glob.glob(os.path.join(V, "theories", "Ref", "*.vo")) + \
            [os.path.join(V, "theories", "Extract.v"), os.path.join(V, "theories", "Base.vo")] + glob.glob(os.path.join(V, "driver", "*.ml"))
     hsh = file_hash(srcs)
     stamp = os.path.join(d, "stamp")
